@@ -14,6 +14,13 @@ let triple s = match zlist s with
   | [a; b; c] -> (a, b, c)
   | _ -> failwith ("bad interface triple " ^ s)
 
+(* unary naturals are immutable: build a given limit (e.g. 100000, the maxlen of loaded paths) once *)
+let nat_table : (string, nat) Hashtbl.t = Hashtbl.create 16
+let nat_memo s =
+  match Hashtbl.find_opt nat_table s with
+  | Some n -> n
+  | None -> let n = nat_of_string s in Hashtbl.add nat_table s n; n
+
 let handle toks =
   match toks with
   (* model segments, model weight, spec segments, spec weight *)
@@ -27,6 +34,18 @@ let handle toks =
     (match wf_pick l r ords (q_of_string u) with
      | None -> "N"
      | Some sg -> string_of_seg sg ^ " " ^ string_of_list string_of_z (seg_frames sg ords))
+  (* return_seg=True with length limits: chosen segment and the INDICES (frame identities) of
+     the frames of the returned segment.  pmaxlen = path.maxlen ("N" = None).  The last token
+     is tis_set["maxlength"] of the ensemble handed to the implementation: the code under
+     model does not read it and the model has no such argument; it is only part of the
+     request so that the case is recorded with it. *)
+  | ["pickm"; l; r; ords; u; pmaxlen; _tis_maxlength] ->
+    let l = z_of_string l and r = z_of_string r and ords = zlist ords in
+    let frames = List.mapi (fun i _ -> nat_of_int i) ords in
+    let pm = if pmaxlen = "N" then None else Some (nat_memo pmaxlen) in
+    (match wf_pick_seed l r ords frames pm (q_of_string u) with
+     | None -> "N"
+     | Some (sg, seed) -> string_of_seg sg ^ " " ^ string_of_list string_of_nat seed)
   | ["cw"; ords; i0; i1; i2; mv] ->
     string_of_option string_of_z
       (compute_weight (zlist ords) (z_of_string i0) (z_of_string i1) (z_of_string i2) (move_of_string mv))
